@@ -2,6 +2,7 @@ package verifkit
 
 import (
 	"fmt"
+	"math"
 	"math/rand/v2"
 	"strconv"
 	"strings"
@@ -23,6 +24,8 @@ type StoreGen struct {
 	// NoEphemeral / NoDeletion restrict the mix.
 	NoEphemeral bool
 	NoDeletion  bool
+	// NoEdgeTimes keeps every created_at inside [TimeBase, TimeBase+TimeRange).
+	NoEdgeTimes bool
 	// UniqueTimes draws every created_at at most once (deterministic sequential spec).
 	UniqueTimes bool
 	// HostileContent uses hostile strings as content.
@@ -63,6 +66,10 @@ var (
 func (g *StoreGen) at() int64 {
 	for tries := 0; ; tries++ {
 		t := g.TimeBase + g.R.Int64N(g.TimeRange)
+		if !g.NoEdgeTimes && g.R.IntN(25) == 0 {
+			// far outside the window: the epoch, beyond int32 / float64 precision, near the end of int64
+			t = Pick(g.R, []int64{0, 1, 1 << 32, 1<<53 + 1, math.MaxInt64 - 1000}) + g.R.Int64N(100)
+		}
 		if !g.UniqueTimes {
 			return t
 		}
@@ -313,6 +320,14 @@ func (g *FilterGen) Filter() *mocrelay.ReqFilter {
 	}
 	if r.IntN(3) == 0 {
 		f.Until = Ptr(g.TimeLo - 1 + r.Int64N(g.TimeHi-g.TimeLo+3))
+	}
+	if r.IntN(12) == 0 {
+		edge := Ptr(Pick(r, []int64{0, 1, 50, 1 << 32, 1<<53 + 1, 1<<53 + 50, math.MaxInt64 - 1000, math.MaxInt64 - 950, math.MaxInt64}))
+		if r.IntN(2) == 0 {
+			f.Since = edge
+		} else {
+			f.Until = edge
+		}
 	}
 	if r.IntN(2) == 0 {
 		f.Limit = Ptr(int64(r.IntN(4)))
